@@ -23,7 +23,9 @@ THEOREMS = ['CC.C04_linear', 'CC.C04_superpose', 'CC.C04_reported_superpose', 'C
             'CC.physEqs_lin', 'CC.C16_zero_voltage_spec', 'CC.C16_zero_current_spec']
 THEOREMS += ['CC.C16_gen_shortCircuitifyVS', 'CC.C16_gen_openCircuitifyCS', 'CC.C16_gen_keep', 'CC.C16_gen_construct', 'CC.C16_gen_finite']
 LEAN_MODULE_EXTRA = ['CC.Properties.C16', 'CC.Properties.C16Gen']
-OPEN_STATEMENTS = ['superposition for skeletons in which the zeroing operation changes the record class (Thevenin lossy source zeroed into a Norton impedance): electrically the same immittance; covered by the metamorphic oracle']
+OPEN_STATEMENTS = ['C04_superpose is PARTIAL: it excludes the reported current of linear (lossy) sources by hypothesis (isLossy = false) — the full statement is false for the current code (open finding C04); C04_scale needs a ≠ 0 (a = 0 is C04_zero_all); C04_reported_superpose covers potentials and voltages, no reported-level scale theorem; C04_scale_power is the ring identity |a|² behind the clause',
+                   'the link from short_circuitify_voltage_sources / open_circuitify_current_sources to `withSrc … 0` is C16_zero_*_spec plus the structural correspondence, not one composed theorem',
+                   'superposition for skeletons in which the zeroing operation changes the record class (Thevenin lossy source zeroed into a Norton impedance): electrically the same immittance; covered by the metamorphic oracle']
 ASSUMPTIONS = ['theorems are about the Spec over a fixed skeleton; the link to the library operations is C16_zero_*_spec plus the structural correspondence',
                'the implementation-side sums use the implementation\'s own solver (validated by C01)']
 
